@@ -572,6 +572,8 @@ def features(P, W=None):
         fs.add("name:temporal-keyword")
     if "total-cost" in low:
         fs.add("name:total-cost")
+    if len(P["types"]) > 1 and any(t["name"].lower() == "object" for t in P["types"]):
+        fs.add("name:type-object")
     if "assign" in low:
         fs.add("name:assign")
     if low & {"oneof", "unknown", "observe"}:
@@ -824,6 +826,7 @@ def signature(reader, clause, feats, extra=""):
         for pre, fl in RELEVANT + (RELEVANT_AI if reader == "ai" else []):
             if clause.startswith(pre):
                 rel = rel + fl
+    rel = list(rel) + ["name:type-object"]
     keep = [f for f in feats if f in rel]
     return "%s|%s%s%s" % (reader, clause, ("|" + ",".join(keep)) if keep else "", ("|" + extra) if extra else "")
 
